@@ -83,6 +83,11 @@ func corpus(w *lib.Writer, env *envT) {
 		{hPre(0, "lua", sc(req(1))), hReq(0), hGetL(0), hPre(1, "lua", sc()), hReq(0), hClear(0), hReq(0)},
 		{hBroken(0, 0), hFile(1, 0, sc()), hReq(0), hGetL(0), hFileNone(0, 0), hReq(0)},
 		{hFile(0, 0, sc(req(1))), hBroken(1, 1), hReq(0), hGetL(0), hGetL(1), hReq(1), hReq(0)},
+		// stat failing with something else than "does not exist" still means "not there": a path entry
+		// running through a regular file (ENOTDIR), a name too long for a file name (ENAMETOOLONG)
+		{hPath(3, 0, 1), hReq(2), hFile(1, 2, sc(ret(eStr(0)))), hReq(2), hGetL(2)},
+		{hPath(3), hReq(2), hPre(2, "lua", sc()), hReq(2)},
+		{hReq(4), hPath(3, 1), hReq(4), hPre(4, "lua", sc(ret(eTab(0)))), hReq(4), hReq(4)},
 		{hReq(0), hReq(2), hPath(2), hReq(1), hPath(1, 1, 0), hReq(3), hFile(0, 0, sc()), hReq(0)},
 		{hPre(0, "lua", sc(setl(eStr(0)), fail())), hReq(0), hReq(0)},
 		// module() and host registration, conflicts
@@ -279,7 +284,7 @@ func genRandom(w *lib.Writer, env *envT, r *lib.Rand, tier string) {
 	}
 	for k := 0; k < n; k++ {
 		cr := r.Fork()
-		nn := cr.Range(2, 4)
+		nn := cr.Range(2, 5)
 		ops := []Op{}
 		// mostly-valid: start by installing loaders for most names
 		for m := 0; m < nn; m++ {
